@@ -11,6 +11,7 @@ mod child;
 mod ctl;
 mod family;
 mod flw;
+mod mirijob;
 mod p_c01;
 mod p_c02;
 mod p_c03;
@@ -327,6 +328,11 @@ fn main() {
                 }
             }
         }
+        Some("mirijob") => mirijob::run(
+            argv.get(2).map(String::as_str).unwrap_or("c03"),
+            argv.get(3).and_then(|v| v.parse().ok()).unwrap_or(1),
+            std::path::Path::new(argv.get(4).map(String::as_str).unwrap_or("/tmp/flmon_mirijob")),
+        ),
         Some("replay") => replay(argv.get(2).map(String::as_str).unwrap_or("")),
         _ => {
             eprintln!("usage: flmon run <PROP> [--seed S --shard J --cases N --secs T --only I --thorough --out F] | replay <file>");
